@@ -327,7 +327,7 @@ def run(ctx):
     ctx.case(("directed", "value_mismatch"), {"template": tspec2, "geoms": g2, "values": [1, 2, 3]}, nontrivial=False)
     judge(ctx, tspec2, g2, [1, 2, 3], 0, "float32")
 
-    for _ in range(ctx.scale(500, 3000)):
+    for _ in range(ctx.scale(1200, 3000)):
         nt = rng.choice([1, 2, 3, 5, 8, 13, 25, 40]); nf = rng.choice([1, 2, 3, 5, 8, 13, 25])
         if rng.random() < 0.25:
             nf = nt
